@@ -1,6 +1,8 @@
 """Shared discovery of the CTR back ends (one per constant vtable) for C04/C05/C06."""
 from ..build import AnalysisBroken
 from ..contract import block_size, family
+import re
+
 from ..ir import CASTS
 from .common import public_functions, vtable_instances, handle_type
 
@@ -46,6 +48,81 @@ def ctx_type_of(prog, an, f, hidx, ctx_off):
         if a is not None and a.root == ("arg", hidx) and len(a.segs) == 2 and a.segs[0].off == ctx_off and a.segs[1].ty:
             return a.segs[1].ty
     return None
+
+
+def innermost_member(prog, ty, off, depth=0):
+    """(start, size, dotted name) of the innermost named member of struct type `ty` that contains byte `off`."""
+    t = prog.ditypes.get(ty)
+    if not t or depth > 4:
+        return None
+    for m in t["members"]:
+        if m["off"] <= off < m["off"] + m["size"]:
+            base = re.sub(r"\[\d+\]$", "", m["type"]).strip()
+            if base in prog.ditypes and not re.search(r"\[\d+\]$", m["type"]) and prog.ditypes[base].get("kind") == "struct" and \
+                    not base.endswith("Key_t"):
+                inner = innermost_member(prog, base, off - m["off"], depth + 1)
+                if inner is not None:
+                    return (m["off"] + inner[0], inner[1], m["name"] + "." + inner[2])
+            return (m["off"], m["size"], m["name"])
+    return None
+
+
+def field_roles(prog, an, b, ef, hidx):
+    """{role: (offset, size, source name)} for counter / ecounter / kt / offset of the back end's context."""
+    from ..mem import AddrMap
+    out = {}
+
+    def ctx_off(am, op, base=None):
+        a = am.of(op) if op[0] in ("i", "a") else None
+        if a is None:
+            return None
+        if base is None:
+            if a.root == ("arg", hidx) and len(a.segs) == 2 and a.segs[0].off == b.ctx_off and a.segs[1].off is not None:
+                return a.segs[1].off
+            return None
+        if a.root == ("arg", base[0]) and len(a.segs) == 1 and a.segs[0].off is not None:
+            return base[1] + a.segs[0].off
+        return None
+
+    def scan(f, base, depth):
+        am = an.summaries[f.key].fa.am if base is None else AddrMap(f)
+        for i in f.all_insts():
+            if i["op"] != "call" or i["callee"][0] != "f":
+                continue
+            g = prog.resolve(f.unit, i["callee"][1])
+            if g is None:
+                continue
+            if len(g.params) >= 3 and g.params[2]["type"].endswith("Key_t*") and len(i["ops"]) >= 3:
+                offs = [ctx_off(am, o, base) for o in i["ops"][:3]]
+                if all(o is not None for o in offs) and "ecounter" not in out:
+                    for role, o in (("ecounter", offs[0]), ("counter", offs[1]), ("kt", offs[2])):
+                        im = innermost_member(prog, b.ctxty, o)
+                        if im:
+                            out[role] = im
+            elif depth < 2 and not g.loops():
+                # glue helper handed the context (or a part of it)
+                for k, o in enumerate(i["ops"]):
+                    co = ctx_off(am, o, base)
+                    if co is not None and k < len(g.params) and g.params[k]["type"].endswith("*"):
+                        scan(g, (k, co), depth + 1)
+    scan(ef, None, 0)
+    if "ecounter" in out:
+        batch = out["ecounter"][1]
+        # the position field: what a setter slot sets to the size of the keystream buffer on success
+        for name, g in sorted(b.roles.items()):
+            if b.kinds.get(name) not in ("counter", "key", "tweak"):
+                continue
+            nz = an.summaries[g.key].c("nz")
+            h = b.handle_idx[name]
+            for k, (loc, t) in ((nz.must or {}).items() if nz else []):
+                a = loc.addr
+                if t == ("c", batch) and a.root == ("arg", h) and len(a.segs) == 2 and a.segs[0].off == b.ctx_off and a.segs[1].off is not None:
+                    im = innermost_member(prog, b.ctxty, a.segs[1].off)
+                    if im:
+                        out["offset"] = im
+            if "offset" in out:
+                break
+    return out
 
 
 def ctr_backends(ctx, prog, an):
@@ -105,11 +182,22 @@ def ctr_backends(ctx, prog, an):
         b.ctxty = ctx_type_of(prog, an, ef, hidx, b.ctx_off)
         if b.ctxty is None or b.ctxty not in prog.ditypes:
             raise AnalysisBroken("context type of back end %s not recovered" % b.table)
+        # fields by ROLE, not by name: the refill call  E(dst, src, schedule)  in the encrypt slot names the
+        # keystream buffer (dst), the counter (src) and the key schedule; the position field is the one the
+        # setters set to sizeof(keystream buffer).  Private fields may be renamed, regrouped or reordered.
+        roles = field_roles(prog, an, b, ef, hidx)
+        b.field_names = {}
+        for role, (off, size, nm) in roles.items():
+            b.fields[role] = (off, size)
+            b.field_names[role] = nm
         for m in prog.ditypes[b.ctxty]["members"]:
-            b.fields[m["name"]] = (m["off"], m["size"])
+            if any(off <= m["off"] and m["off"] + m["size"] <= off + size for (off, size) in b.fields.values()):
+                continue        # the member is one of the role fields
+            if m["name"] not in b.fields:
+                b.fields[m["name"]] = (m["off"], m["size"])
         for need in ("counter", "ecounter", "offset"):
             if need not in b.fields:
-                raise AnalysisBroken("context type %s has no field `%s` (anchor vanished)" % (b.ctxty, need))
+                raise AnalysisBroken("context type %s: no field plays the role `%s` (anchor vanished)" % (b.ctxty, need))
         b.batch = b.fields["ecounter"][1]
         if b.batch % b.block:
             raise AnalysisBroken("ecounter size %d of %s is not a multiple of the block size" % (b.batch, b.ctxty))
